@@ -11,10 +11,10 @@
 //   M imm rd x is64                                    -> "M <count> w0 w1 w2 w3"(encode_mov_sequence_32/64)
 //   H size idx                                         -> "H <ok> <lm> <h> <maxrm>" (encode_lmh)
 //   X kind x a b                                        -> "X <ok> <sf> <N> <immr> <imms>" (a64::Assembler: kind 0 bfxil 1 sbfx 2 ubfx 3 bfi 4 sbfiz 5 ubfiz
-//                                                                                  6 bfc 7 bfm 8 sbfm 9 ubfm 10 lsl 11 lsr 12 asr (immediate forms); x = 1: X registers;
+//                                                                                  6 bfc 7 bfm 8 sbfm 9 ubfm 10 lsl 11 lsr 12 asr 13 ror (immediate forms; ror = EXTR Rd, Rn, Rn: the immr column then shows Rm); x = 1: X registers;
 //                                                                                  a, b = lsb,width / immr,imms / shift,0; fields read back from the emitted word)
 //   Y op form size acc optsize longform imm             -> "Y <ok> <has66> <rexw> <short> <opcode> <immsize> <field>"  (x86::Assembler, X64: op 0..7 =
-//                                                                                  add or adc sbb and sub xor cmp, 8 = test, 9 = mov, 10 = imul r, r/m, imm (source rdx / [rcx]), 11 = push imm; short = no ModRM byte; form 0: register (acc = 1: AL/AX/EAX/RAX, else CL/CX/ECX/RCX),
+//                                                                                  add or adc sbb and sub xor cmp, 8 = test, 9 = mov, 10 = imul r, r/m, imm (source rdx / [rcx]), 11 = push imm, 12..15 = shl sar ror rcl r/m, imm, 16/17 = shld/shrd r/m, rdx, imm (opcode 0x0FA4 / 0x0FAC); short = no ModRM byte; form 0: register (acc = 1: AL/AX/EAX/RAX, else CL/CX/ECX/RCX),
 //                                                                                  form 1: <size> ptr [rcx]; EncodingOptions::kOptimizeForSize / InstOptions::kLongForm;
 //                                                                                  the emitted bytes are parsed: 66?, REX?, opcode, ModRM unless short form, immediate = rest)
 //   E width off nbits                                   -> "E <ok>"              (EmitterUtils::is_encodable_offset_32 / _64; width = 32|64)
@@ -187,10 +187,10 @@ int main() {
     else if (c == 'X') {
       unsigned kind, x; unsigned long long va, vb;
       if (sscanf(line + 1, "%u %u %llu %llu", &kind, &x, &va, &vb) != 4 || !bf.init()) { printf("BAD\n"); continue; }
-      static const InstId ids[13] = { a64::Inst::kIdBfxil, a64::Inst::kIdSbfx, a64::Inst::kIdUbfx, a64::Inst::kIdBfi, a64::Inst::kIdSbfiz,
+      static const InstId ids[14] = { a64::Inst::kIdBfxil, a64::Inst::kIdSbfx, a64::Inst::kIdUbfx, a64::Inst::kIdBfi, a64::Inst::kIdSbfiz,
                                       a64::Inst::kIdUbfiz, a64::Inst::kIdBfc, a64::Inst::kIdBfm, a64::Inst::kIdSbfm, a64::Inst::kIdUbfm,
-                                      a64::Inst::kIdLsl, a64::Inst::kIdLsr, a64::Inst::kIdAsr };
-      if (kind > 12) { printf("BAD\n"); continue; }
+                                      a64::Inst::kIdLsl, a64::Inst::kIdLsr, a64::Inst::kIdAsr, a64::Inst::kIdRor };
+      if (kind > 13) { printf("BAD\n"); continue; }
       a64::Gp rd = x ? a64::Gp(a64::x3) : a64::Gp(a64::w3);
       a64::Gp rn = x ? a64::Gp(a64::x5) : a64::Gp(a64::w5);
       bf.a.set_offset(0);
@@ -204,9 +204,10 @@ int main() {
     }
     else if (c == 'Y') {
       unsigned op, form, size, acc, optsize, longform; long long imm;
-      if (sscanf(line + 1, "%u %u %u %u %u %u %lld", &op, &form, &size, &acc, &optsize, &longform, &imm) != 7 || !xa.init() || op > 11) { printf("BAD\n"); continue; }
-      static const InstId ids[12] = { x86::Inst::kIdAdd, x86::Inst::kIdOr, x86::Inst::kIdAdc, x86::Inst::kIdSbb, x86::Inst::kIdAnd, x86::Inst::kIdSub, x86::Inst::kIdXor, x86::Inst::kIdCmp,
-                                      x86::Inst::kIdTest, x86::Inst::kIdMov, x86::Inst::kIdImul, x86::Inst::kIdPush };
+      if (sscanf(line + 1, "%u %u %u %u %u %u %lld", &op, &form, &size, &acc, &optsize, &longform, &imm) != 7 || !xa.init() || op > 17) { printf("BAD\n"); continue; }
+      static const InstId ids[18] = { x86::Inst::kIdAdd, x86::Inst::kIdOr, x86::Inst::kIdAdc, x86::Inst::kIdSbb, x86::Inst::kIdAnd, x86::Inst::kIdSub, x86::Inst::kIdXor, x86::Inst::kIdCmp,
+                                      x86::Inst::kIdTest, x86::Inst::kIdMov, x86::Inst::kIdImul, x86::Inst::kIdPush,
+                                      x86::Inst::kIdShl, x86::Inst::kIdSar, x86::Inst::kIdRor, x86::Inst::kIdRcl, x86::Inst::kIdShld, x86::Inst::kIdShrd };
       xa.a.set_offset(0);
       xa.a.clear_encoding_options(EncodingOptions::kOptimizeForSize);
       if (optsize) xa.a.add_encoding_options(EncodingOptions::kOptimizeForSize);
@@ -214,6 +215,13 @@ int main() {
       Error err;
       if (op == 11) {
         err = xa.a.emit(ids[op], Imm(int64_t(imm)));
+      }
+      else if (op >= 16) {
+        uint32_t id = acc ? 0u : 1u;
+        x86::Gp r = size == 2 ? x86::gpw(id) : size == 4 ? x86::gpd(id) : x86::gpq(id);
+        x86::Gp s2 = size == 2 ? x86::gpw(2) : size == 4 ? x86::gpd(2) : x86::gpq(2);
+        if (form == 0) err = xa.a.emit(ids[op], r, s2, Imm(int64_t(imm)));
+        else err = xa.a.emit(ids[op], x86::ptr(x86::rcx, 0, size), s2, Imm(int64_t(imm)));
       }
       else if (op == 10) {
         uint32_t id = acc ? 0u : 1u;
@@ -239,6 +247,7 @@ int main() {
       if (b[i] == 0x66) { has66 = 1; i++; }
       if ((b[i] & 0xF0) == 0x40) { rexw = (b[i] >> 3) & 1u; i++; }
       unsigned opc = b[i++];
+      if (opc == 0x0F) opc = 0x0F00u | b[i++];
       unsigned shortf = ((opc < 0x40 && ((opc & 7) == 4 || (opc & 7) == 5)) || opc == 0xA8 || opc == 0xA9 || opc == 0x68 || opc == 0x6A || (opc >= 0xB0 && opc <= 0xBF)) ? 1u : 0u;
       if (!shortf) i++;   // ModRM (register direct or [rcx]: no SIB, no displacement)
       uint64_t field = 0; unsigned immsize = unsigned(n - i);
